@@ -4,6 +4,7 @@ package bfe_spdy
 
 import (
 	"bytes"
+	"io"
 	"encoding/binary"
 
 	"github.com/baidu/go-lib/gotrack"
@@ -15,6 +16,12 @@ import (
 // Framer.ReadFrame -> readSynStreamFrame -> parseHeaderValueBlock -> serverConn.newWriterAndRequest.
 // code: 0 ok, 1 rejected by the framer, 2 rejected by newWriterAndRequest.
 func VerifC25Request(names, values []string) (*http.Request, int) {
+	return VerifC25RequestBody(names, values, nil, false)
+}
+
+// VerifC25RequestBody: with open == true the HEADERS / SYN_STREAM frame does not end the stream; body is
+// then delivered through the request body pipe followed by end of stream (as processData does).
+func VerifC25RequestBody(names, values []string, body []byte, open bool) (*http.Request, int) {
 	var blk bytes.Buffer
 	binary.Write(&blk, binary.BigEndian, uint32(len(names)))
 	for i := range names {
@@ -23,9 +30,13 @@ func VerifC25Request(names, values []string) (*http.Request, int) {
 		binary.Write(&blk, binary.BigEndian, uint32(len(values[i])))
 		blk.WriteString(values[i])
 	}
+	flags := ControlFlagFin
+	if open {
+		flags = 0
+	}
 	var wire bytes.Buffer
 	binary.Write(&wire, binary.BigEndian, uint32(0x80000000|3<<16|uint32(TypeSynStream)))
-	binary.Write(&wire, binary.BigEndian, uint32(ControlFlagFin)<<24|uint32(10+blk.Len()))
+	binary.Write(&wire, binary.BigEndian, uint32(flags)<<24|uint32(10+blk.Len()))
 	binary.Write(&wire, binary.BigEndian, uint32(1)) // stream id
 	binary.Write(&wire, binary.BigEndian, uint32(0)) // associated
 	wire.WriteByte(0)                                // priority
@@ -40,8 +51,13 @@ func VerifC25Request(names, values []string) (*http.Request, int) {
 	if !ok {
 		return nil, 1
 	}
-	sc := &serverConn{serveG: gotrack.NewGoroutineLock(), remoteAddrStr: "192.0.2.1:1234"}
+	done := make(chan struct{})
+	close(done) // body reads report to the serve loop; there is none: let them fall through
+	sc := &serverConn{serveG: gotrack.NewGoroutineLock(), remoteAddrStr: "192.0.2.1:1234", doneServing: done}
 	st := &stream{id: 1, state: stateHalfClosedRemote}
+	if open {
+		st.state = stateOpen
+	}
 	_, req, err := sc.newWriterAndRequest(st, syn)
 	if err != nil {
 		return nil, 2
@@ -50,6 +66,10 @@ func VerifC25Request(names, values []string) (*http.Request, int) {
 	// serve loop it would block the first body read
 	if rb, ok := req.Body.(*RequestBody); ok {
 		rb.needsContinue = false
+		if open && rb.pipe != nil {
+			rb.pipe.Write(body)
+			rb.pipe.CloseWithError(io.EOF)
+		}
 	}
 	return req, 0
 }
